@@ -1,3 +1,37 @@
-From RainV Require Import Lib Wire.
-Theorem C11_placeholder : True. Proof. exact I. Qed.
-Print Assumptions C11_placeholder.
+(* C11 — peer wire encoding is protocol-exact and round-trips through the reader. *)
+From RainV Require Import Lib Bencode BencodeProofs Wire WireProofs.
+
+(* what the Go writer puts on the wire is the BEP 3/6/10 framing, for every message kind and
+   every field value (bitfields and payloads of any size below 4 GiB) *)
+Theorem C11_writer_is_protocol_exact : forall m, body_small m -> enc_go m = encode m.
+Proof. exact enc_go_is_spec. Qed.
+Print Assumptions C11_writer_is_protocol_exact.
+
+(* the client's own reader decodes every emitted message sequence back to the identical
+   sequence (messages within the reader's limits: request length <= 16 KiB, piece data <= 16 KiB,
+   frame <= maxmsg) *)
+Theorem C11_reader_inverts_writer : forall maxmsg ms, 0 <= maxmsg -> Forall (wfm maxmsg) ms ->
+  parse_all maxmsg (flat_map encode ms) = (ms, EndEOF).
+Proof. exact reader_inverts_writer. Qed.
+Print Assumptions C11_reader_inverts_writer.
+
+(* extension payloads (handshake, ut_metadata with trailing raw data, ut_pex) survive the
+   bencode layer *)
+Theorem C11_extension_payload_roundtrip : forall m, wf_ext m -> unmarshal_ext (ext_body m) = Some m.
+Proof. exact unmarshal_ext_body. Qed.
+Print Assumptions C11_extension_payload_roundtrip.
+
+Theorem C11_bencode_roundtrip : forall v rest, decode (enc v ++ rest) = Some (v, rest).
+Proof. exact decode_encode. Qed.
+Print Assumptions C11_bencode_roundtrip.
+
+Theorem C11_handshake_roundtrip : forall ext ih id rest,
+  length ext = 8%nat -> length ih = 20%nat -> length id = 20%nat ->
+  rd_handshake (handshake ext ih id ++ rest) = Some (ext, ih, id, rest).
+Proof. exact handshake_roundtrip. Qed.
+Print Assumptions C11_handshake_roundtrip.
+
+(* the upload counter equals the piece payload bytes actually framed *)
+Theorem C11_upload_counter : forall m, uploaded_of m = wire_payload m.
+Proof. exact upload_counter. Qed.
+Print Assumptions C11_upload_counter.
